@@ -42,7 +42,7 @@ impl<'a> Cur<'a> {
 	}
 }
 
-pub const TARGETS: [&str; 6] = ["window_ops", "smm_stream", "method_program", "window_json", "parse_strings", "renko_stream"];
+pub const TARGETS: [&str; 7] = ["window_ops", "smm_stream", "method_program", "window_json", "parse_strings", "renko_stream", "indicator_program"];
 
 pub fn window_ops(data: &[u8]) -> CaseResult {
 	let mut c = Cur::new(data);
@@ -193,6 +193,106 @@ pub fn renko_stream(data: &[u8]) -> CaseResult {
 	engine::guarded(|| c17::run_renko(&c17::RenkoCase { brick, source, start, moves }, &mut st))
 }
 
+/// Decode a candle stream on an exactly representable lattice (ticks of 1/4 around 100): ties, exactly
+/// flat bars, zero volume, outside bars and gaps are all one byte away from each other.
+fn lattice_candles(c: &mut Cur, max: usize) -> Vec<crate::gen::C5> {
+	use crate::gen::C5;
+	let tick = 0.25;
+	let mut prev = 100.0f64;
+	let mut out = Vec::new();
+	while c.left() > 0 && out.len() < max {
+		let b = c.u8();
+		let vb = c.u8();
+		let t = ((b >> 3) as f64) * tick;
+		let floor = tick;
+		let (o, h, l, cl) = match b % 8 {
+			0 => (prev, prev, prev, prev),
+			1 => (prev, prev + t, prev, prev + t),
+			2 => {
+				let n = (prev - t).max(floor);
+				(prev, prev, n, n)
+			}
+			3 => (prev, prev + t, (prev - t).max(floor), prev),
+			4 => (prev, prev + 2.0 * t, (prev - tick).max(floor), prev + t),
+			5 => {
+				let n = (prev - t).max(floor);
+				(prev, prev + tick, (n - tick).max(floor), n)
+			}
+			6 => {
+				let o = if vb & 1 == 0 { prev + t } else { (prev - t).max(floor) };
+				(o, o, o, o)
+			}
+			_ => {
+				let (h, l) = (prev + t, (prev - t).max(floor));
+				(prev, h, l, if vb & 1 == 0 { h } else { l })
+			}
+		};
+		let v = match vb {
+			0..=15 => 0.0,
+			16..=200 => (vb - 15) as f64,
+			_ => (vb as f64 - 200.0) * 1e6,
+		};
+		out.push(C5 { o, h, l, c: cl, v });
+		prev = cl;
+	}
+	if out.is_empty() {
+		out.push(C5 { o: 100.0, h: 100.0, l: 100.0, c: 100.0, v: 1.0 });
+	}
+	out
+}
+
+/// which oracles the indicator target applies (`YVERIF_FUZZ_ORACLES=C10,C12`; default: C10)
+fn oracle_set() -> &'static Vec<String> {
+	use std::sync::OnceLock;
+	static S: OnceLock<Vec<String>> = OnceLock::new();
+	S.get_or_init(|| std::env::var("YVERIF_FUZZ_ORACLES").unwrap_or_else(|_| "C10".into()).split(',').map(|s| s.trim().to_string()).filter(|s| !s.is_empty()).collect())
+}
+
+/// One indicator (any of the 37), a configuration valid by construction, a lattice candle stream;
+/// then the per-property oracles selected by `YVERIF_FUZZ_ORACLES`.
+pub fn indicator_program(data: &[u8]) -> CaseResult {
+	indicator_program_with(data, oracle_set())
+}
+
+pub fn indicator_program_with(data: &[u8], oracles: &[String]) -> CaseResult {
+	use crate::cfggen::{self, CfgCase};
+	use crate::gen::CandleStream;
+	let mut c = Cur::new(data);
+	let name = cfggen::NAMES[c.u8() as usize % cfggen::NAMES.len()];
+	let opt = c.u8();
+	let words: Vec<u16> = (0..10).map(|_| c.u16()).collect();
+	let at = c.u16();
+	let cuts = vec![c.u16(), c.u16(), c.u16()];
+	let cfg = if opt & 0x0f == 0 {
+		CfgCase { name: name.to_string(), cfg: Value::Null }
+	} else {
+		let mut ch = cfggen::Chooser::new(&words);
+		// the same configuration domains as the proptest strategies of the selected oracles
+		let modelled = oracles.iter().any(|o| matches!(o.as_str(), "C05" | "C06" | "C12" | "C11"));
+		ch.wide = opt & 0x10 != 0 && !modelled;
+		ch.price_sources = opt & 0x20 == 0 || modelled;
+		ch.nonneg_ma = oracles.iter().any(|o| o == "C12") && matches!(name, "RelativeStrengthIndex" | "StochasticOscillator" | "SMIErgodicIndicator" | "Envelopes" | "KeltnerChannel");
+		CfgCase { name: name.to_string(), cfg: cfggen::build(name, &mut ch) }
+	};
+	let s = CandleStream { n: 0, cs: lattice_candles(&mut c, 2000) };
+	let mut st = Stats::default();
+	engine::guarded(|| {
+		for o in oracles {
+			match o.as_str() {
+				"C10" => c10::run_indicator_stream(&c10::IStreamCase { cfg: cfg.clone(), s: s.clone() }, &mut st)?,
+				"C05" => crate::props::c05::run(&crate::props::c05::VCase { cfg: cfg.clone(), s: s.clone() }, &mut st)?,
+				"C06" => crate::props::c06::run(&crate::props::c06::SCase { cfg: cfg.clone(), s: s.clone() }, &mut st)?,
+				"C09" => crate::props::c09::run_ibatch(&crate::props::c09::IBatch { cfg: cfg.clone(), s: s.clone(), cuts: cuts.clone(), clone_at: at }, &mut st)?,
+				"C11" => crate::props::c11::run_shape(&crate::props::c11::ShapeCase { cfg: cfg.clone(), s: s.clone() }, &mut st)?,
+				"C12" => crate::props::c12::run_indicator(&crate::props::c12::RCase { cfg: cfg.clone(), s: s.clone() }, &mut st)?,
+				"C13" => c13::run_isnap(&c13::ISnapCase { cfg: cfg.clone(), s: s.clone(), at }, &mut st)?,
+				_ => {}
+			}
+		}
+		Ok(())
+	})
+}
+
 pub fn run_target(target: &str, data: &[u8]) -> CaseResult {
 	match target {
 		"window_ops" => window_ops(data),
@@ -201,6 +301,11 @@ pub fn run_target(target: &str, data: &[u8]) -> CaseResult {
 		"window_json" => window_json(data),
 		"parse_strings" => parse_strings(data),
 		"renko_stream" => renko_stream(data),
+		"indicator_program" => indicator_program(data),
+		t if t.starts_with("indicator_program@") => {
+			let o: Vec<String> = t["indicator_program@".len()..].split(',').map(|x| x.to_string()).collect();
+			indicator_program_with(data, &o)
+		}
 		_ => Err(Failure::new("harness", format!("unknown fuzz target {target}"))),
 	}
 }
@@ -214,7 +319,7 @@ pub fn fuzz_one(target: &str, data: &[u8]) {
 	HOOK.get_or_init(engine::install_panic_hook);
 	let known = KNOWN.get_or_init(|| {
 		let mut v = Vec::new();
-		for p in ["C01", "C04", "C10", "C13", "C17", "C18", "C19"] {
+		for p in ["C01", "C04", "C05", "C06", "C09", "C10", "C11", "C12", "C13", "C17", "C18", "C19"] {
 			v.extend(engine::load_known(p));
 		}
 		v
@@ -236,6 +341,7 @@ pub struct CorpusReplay {
 
 fn files_of(target: &str) -> Vec<std::path::PathBuf> {
 	let mut v = Vec::new();
+	let target = target.split('@').next().unwrap_or(target);
 	for dir in [format!("{}/corpus/{}", engine::VERIF_DIR, target), format!("{}/regress/fuzz/{}", engine::VERIF_DIR, target)] {
 		if let Ok(rd) = std::fs::read_dir(&dir) {
 			v.extend(rd.filter_map(|e| e.ok().map(|e| e.path())).filter(|p| p.is_file()));
@@ -247,7 +353,7 @@ fn files_of(target: &str) -> Vec<std::path::PathBuf> {
 
 impl SubCheck for CorpusReplay {
 	fn name(&self) -> String {
-		format!("corpus_{}", self.target)
+		format!("corpus_{}", self.target.split('@').next().unwrap_or(self.target))
 	}
 	fn run(&self, cfg: &RunCfg, stats: &mut Stats) -> Option<Violation> {
 		for f in files_of(self.target) {
@@ -277,10 +383,16 @@ impl SubCheck for CorpusReplay {
 
 pub fn corpus_checks(property: &'static str) -> Vec<Box<dyn SubCheck>> {
 	let targets: &[&'static str] = match property {
-		"C19" => &["window_ops", "smm_stream", "method_program", "window_json"],
+		"C19" => &["window_ops", "smm_stream", "method_program", "window_json", "indicator_program@C10"],
 		"C01" => &["window_ops"],
 		"C04" => &["smm_stream"],
-		"C13" => &["window_json"],
+		"C13" => &["window_json", "indicator_program@C13"],
+		"C05" => &["indicator_program@C05"],
+		"C06" => &["indicator_program@C06"],
+		"C09" => &["indicator_program@C09"],
+		"C10" => &["indicator_program@C10"],
+		"C11" => &["indicator_program@C11"],
+		"C12" => &["indicator_program@C12"],
 		"C17" => &["renko_stream"],
 		"C18" => &["parse_strings"],
 		_ => &[],
